@@ -21,8 +21,8 @@ against the accessor bodies themselves.
 A value whose abstraction is unknown makes its instance `undecided`, never a violation.
 """
 from collections import defaultdict
-from . import mir
-from .base import inst, OK, VIOLATION, UNDECIDED, strip, bool_arms
+from . import mir, canon
+from .base import inst, OK, VIOLATION, UNDECIDED, strip, bool_arms, verdict_of, errtext
 from .facts import CheckerError
 from .mir import show
 
@@ -861,12 +861,10 @@ def hash_sign(prog):
         te = fn.terms
         errs = []
         found = 0
-        for bb, t, line in te.aggs:
-            if t[3] != "Some" or t[1] != "adt":
-                continue
-            inner = strip(t[4][0])
-            desc = show(inner)
-            via_neg_hash = "negate(" in desc or any(
+        outs = canon.option_outcomes(prog, te, te.ret)
+        for inner in (outs or []):
+            inner = strip(canon.resolve_hashers(te, inner))
+            via_neg_hash = any(mir.is_call(y, "negate") for y in mir.subterms(inner)) or any(
                 mir.is_call(y, "negate") for x in mir.subterms(inner) if x[0] == "mut" and x[1][0] in te.calls_by_bb
                 for a in te.calls_by_bb[x[1][0]].args for y in mir.subterms(a))
             if wrap == "variant":
@@ -881,9 +879,9 @@ def hash_sign(prog):
                     errs.append("node found under the %s hash is returned %s" % ("negated" if via_neg_hash else "plain",
                                                                                     "negated" if is_neg else "as is"))
         if found < 2:
-            errs.append("lookup results not recognised (%d)" % found)
-        out.append(inst("CP", "%s::check_cached_hash_and_neg:sign" % self_adt, VIOLATION if errs else OK, fn, None,
-                        "; ".join(errs[:2]) if errs else "plain hash ↦ regular pointer, negated hash ↦ complemented pointer"))
+            errs.append("?lookup results not recognised (%d)" % found)
+        out.append(inst("CP", "%s::check_cached_hash_and_neg:sign" % self_adt, verdict_of(errs), fn, None,
+                        errtext(errs[:2]) if errs else "plain hash ↦ regular pointer, negated hash ↦ complemented pointer"))
     return out
 
 
